@@ -382,6 +382,13 @@ func Implements(c, iface *Type) bool {
 		return false
 	}
 	for _, i := range leaf.Impls {
+		if leaf.Partial {
+			// only the interface's own methods are declared: enough only if nothing is embedded
+			if i == iface && len(i.Embeds) == 0 {
+				return true
+			}
+			continue
+		}
 		if ifaceIncludes(i, iface) {
 			return true
 		}
